@@ -67,6 +67,7 @@ type State struct {
 	quiet     int
 	havocPats []string
 	calls     *callEntry // completed calls on this path (persistent list)
+	lastLine  int
 }
 
 type callEntry struct {
@@ -102,7 +103,7 @@ func (st *State) callResult(frame int, key string, n int) (Value, bool) {
 }
 
 func (st *State) clone() *State {
-	n := &State{log: st.log, alloc: st.alloc, panicking: st.panicking, recovered: st.recovered, panicVal: st.panicVal, panicPos: st.panicPos, epoch: st.epoch, nonNil: st.nonNil, calls: st.calls}
+	n := &State{log: st.log, alloc: st.alloc, panicking: st.panicking, recovered: st.recovered, panicVal: st.panicVal, panicPos: st.panicPos, epoch: st.epoch, nonNil: st.nonNil, calls: st.calls, lastLine: st.lastLine}
 	n.active = append([]*loopRun{}, st.active...)
 	n.havocPats = append([]string{}, st.havocPats...)
 	if st.written != nil {
@@ -372,7 +373,8 @@ func family(sym string) string {
 func families(s string, arrays map[string]bool) map[string]bool {
 	out := map[string]bool{}
 	for _, m := range symRe.FindAllString(s, -1) {
-		if arrays[m] {
+		// only real heap leaves are sliced; ghost state (G_...) is small and always kept
+		if arrays[m] && (strings.HasPrefix(m, "H_") || strings.HasPrefix(m, "A_") || strings.HasPrefix(m, "M_")) {
 			out[family(m)] = true
 		}
 	}
@@ -454,7 +456,8 @@ func (x *Exec) buildQuerySliced(ob *LogNode, dropNL bool, slice bool, closure bo
 		fmt.Fprintf(&sb, "(declare-const %s %s)\n", g, x.globals[g])
 	}
 	sb.WriteString(x.extraDecls)
-	sb.WriteString(x.prog.postPrelude())
+	head := sb.String()
+	sb.Reset()
 	for _, n := range nodes {
 		switch n.Kind {
 		case KDecl:
@@ -476,7 +479,8 @@ func (x *Exec) buildQuerySliced(ob *LogNode, dropNL bool, slice bool, closure bo
 		}
 	}
 	fmt.Fprintf(&sb, "(assert (not %s))\n", ob.T.S)
-	return sb.String()
+	body := sb.String()
+	return head + x.prog.postPreludeFor(body) + body
 }
 
 // buildFeasibility asks whether the path prefix ending at node n is satisfiable.
